@@ -617,12 +617,24 @@ def rule_state_writers(facts, rid="C01.R7"):
     return r
 
 
+def _c09_guards(facts):
+    """Exactness includes acceptance: the window's distance guards must reject exactly dist > bound (C09.R1 evaluation) -
+    a guard that also refuses dist == dict_size rejects well-formed streams."""
+    from rules import C09
+    r = C09.rule_guards(facts)
+    r.rule = "C01.R8"
+    r.title = "the window's distance guards reject exactly dist > dict_size / dist > bytes produced"
+    for f in r.findings:
+        f.rule = "C01.R8"
+    return r
+
+
 def run(ctx, t0):
     facts = ctx.facts()
     pat.FACTS = facts
     from rules import rcterms
     rules = [rule_header(facts), rule_automaton(facts), rule_contexts(facts), rule_window(facts), rule_shapes(facts),
-             rcterms.rule_rangedecoder(facts), rule_state_writers(facts)]
+             rcterms.rule_rangedecoder(facts), rule_state_writers(facts), _c09_guards(facts)]
     expl = ("Static, structural clauses only: the finite tables (state automaton constants and thresholds, repeat "
             "rotation, table shapes and initialisers), the index/offset/length terms and the who-writes facts of the "
             "circular window are extracted from MIR and compared with the format's. This is a necessary condition of "
